@@ -190,6 +190,56 @@ Definition from_blocks (bs : tb A) (ref_rows : Z) : res tbr :=
       else Err "ErrorInitTypeBlocks"                           (* mismatched row count *)
   end.
 
+(* ---- TypeBlocks._indices_to_contiguous_pairs as repaired by fix ecbc9f2 (type_blocks.py:1030-1062) ----
+   a bundle is contiguous only while it keeps its direction: (x, x+1, x) is two bundles, not one.
+   (SF.Blocks.contiguous_go models the rule before the fix and is kept there for the other properties.)
+   state: (block, col) of the previous pair, the direction of the bundle once it has two columns,
+   the columns collected so far *)
+Fixpoint contiguous_go_dir (last_b last_c : Z) (dir : option Z) (bundle_rev : list Z) (rest : list (Z * Z))
+  : list (Z * list Z) :=
+  match rest with
+  | [] => [(last_b, rev bundle_rev)]
+  | (bi, col) :: rest' =>
+      if (last_b =? bi) && (Z.abs (col - last_c) =? 1) &&
+         (match dir with None => true | Some d => col - last_c =? d end)   (* len(bundle) == 1 or same direction *)
+      then contiguous_go_dir bi col (Some (col - last_c)) (col :: bundle_rev) rest'
+      else (last_b, rev bundle_rev) :: contiguous_go_dir bi col None [col] rest'
+  end.
+
+Definition contiguous_bundles_dir (pairs : list (Z * Z)) : list (Z * list Z) :=
+  match pairs with
+  | [] => []
+  | (bi, col) :: rest => contiguous_go_dir bi col None [col] rest
+  end.
+
+Definition contiguous_pairs_dir (pairs : list (Z * Z)) : list (Z * slice) :=
+  map (fun p => (fst p, cols_to_slice_t (snd p))) (contiguous_bundles_dir pairs).
+
+(* TypeBlocks._key_to_block_slices (retain_key_order) and the column walk over the repaired bundling.
+   A Python list of Booleans is a CMask: _slice_blocks turns it into a Boolean array first (fix b1181bc). *)
+Definition key_to_block_slices_dir (t : tb A) (k : ckey) : res (list (Z * slice)) :=
+  match k with
+  | CAll => Ok (all_block_slices t)
+  | _ =>
+    match key_positions k (Z.of_nat (length (tb_index t))) with
+    | Err e => Err e
+    | Ok ps =>
+        match opt_all (map (nth_z (tb_index t)) ps) with
+        | Some pairs => Ok (contiguous_pairs_dir pairs)
+        | None => Err "IndexError"
+        end
+    end
+  end.
+
+Definition M_select_columns_dir (t : tb A) (k : ckey) : res (tb A) :=
+  match key_to_block_slices_dir t k with
+  | Err e => Err e
+  | Ok pairs => match slice_blocks t pairs with
+                | Some t' => Ok t'
+                | None => Err "IndexError"
+                end
+  end.
+
 (* ---- TypeBlocks._extract (type_blocks.py:2088-2123) ---- *)
 Inductive tb_or_elem := TElem (a : A) | TBlocks (t : tbr).
 
@@ -225,15 +275,20 @@ Definition M_tb_extract (t : tb A) (nrows : Z) (rk ck : ckey) : res tb_or_elem :
           end
       end
   | _ =>
-      (* from_blocks(_slice_blocks(row_key, column_key), shape_reference=self._shape).
-         (The code computes single_row before walking the column key; the order is only visible
-         when BOTH keys are malformed, which the correspondence does not generate.) *)
-      match M_select_columns t ck with
+      (* from_blocks(_slice_blocks(row_key, column_key), shape_reference=(rows, ncols)).
+         (The code counts the selected rows and computes single_row before walking the column key; the
+         order is only visible when BOTH keys are malformed, which the correspondence does not generate.) *)
+      match M_select_columns_dir t ck with
       | Err e => Err e
       | Ok t' =>
           sr <- single_row rk nrows;;
           bs <- res_all (map (row_apply rk sr nrows) t');;
-          r <- from_blocks bs nrows;;
+          (* shape_reference: the number of rows the key selects (fix dfbaa1d), binding when no block is yielded *)
+          ref <- match rk with
+                 | CAll | CInt _ => Ok nrows
+                 | _ => rp <- key_positions rk nrows;; Ok (Z.of_nat (length rp))
+                 end;;
+          r <- from_blocks bs ref;;
           Ok (TBlocks r)
       end
   end.
@@ -321,22 +376,6 @@ Definition M_extract (f : mframe) (rk ck : ckey) : res xres :=
       end
   end.
 
-(* where the code is known to leave the specification (finding C04-empty-columns-row-subset):
-   a column key selecting NO column together with a non-scalar row key selecting k <> nrows rows;
-   from_blocks then takes the row count from shape_reference (the unselected frame) *)
-Definition extract_dom (nrows ncols : Z) (rk ck : ckey) : bool :=
-  match ck with
-  | CInt _ => true
-  | _ => match key_positions ck ncols with
-         | Ok [] => is_int rk ||
-                    match key_positions rk nrows with
-                    | Ok rp => Z.of_nat (length rp) =? nrows
-                    | Err _ => true
-                    end
-         | _ => true
-         end
-  end.
-
 (* ================================================================================================
    LABEL KEYS *)
 Inductive lkey :=
@@ -396,10 +435,17 @@ Definition S_loc (labels : list L) (k : lkey) : res sel :=
   end.
 
 (* ---- IMPLEMENTATION: Index._loc_to_iloc (index.py:904-970) ---- *)
-(* util.slice_to_inclusive_slice, typed (Proofs/SelectIncl.v: equal to the regenerated kernel) *)
+(* util.slice_to_inclusive_slice, typed (Proofs/SelectIncl.v: equal to the regenerated kernel).
+   Walking up the inclusive stop is one position higher; walking down one lower, and "below 0" is None *)
+Definition step_up (st : option Z) : bool := match st with None => true | Some s => s >? 0 end.
+
+Definition incl_stop (b : Z) (st : option Z) (offset : Z) : option Z :=
+  if step_up st then Some (b + 1 + offset)
+  else if b - 1 + offset <? 0 then None else Some (b - 1 + offset).
+
 Definition incl_typed (k : slice) (offset : Z) : slice :=
   mk_slice (match s_start k with None => None | Some a => Some (a + offset) end)
-           (match s_stop k with None => None | Some b => Some (b + 1 + offset) end)
+           (match s_stop k with None => None | Some b => incl_stop b (s_step k) offset end)
            (s_step k).
 
 (* key_from_container_key (container_util.py:837-878): Boolean Series -> reindexed Boolean array *)
@@ -415,12 +461,12 @@ Definition M_loc_map (labels : list L) (k : lkey) : res ckey :=
   | LILoc k' => Ok k'
   | LSlice None None None => Ok CAll
   | LSlice a b st =>
-      (* map_slice_args: label_to_pos on start and stop, stop + 1, step untouched *)
+      (* map_slice_args: label_to_pos on start and stop, stop made inclusive (+1 walking up, -1 walking down), step untouched *)
       match find_opt a labels with
       | Err _ => Err "KeyError"              (* LocInvalid *)
       | Ok pa => match find_opt b labels with
                  | Err _ => Err "KeyError"
-                 | Ok pb => Ok (CSlice (mk_slice pa (match pb with Some p => Some (p + 1) | None => None end) st))
+                 | Ok pb => Ok (CSlice (mk_slice pa (match pb with Some p => incl_stop p st 0 | None => None end) st))
                  end
       end
   | LMask m => (* positions[key]: an integer array *)
@@ -434,28 +480,38 @@ Definition M_loc_map (labels : list L) (k : lkey) : res ckey :=
   | LBoolSeries _ => Err "unreachable"
   end.
 
-(* the loc_is_iloc fast path for auto-integer indices (index.py:925-936): the key is NOT validated *)
+(* the loc_is_iloc fast path for auto-integer indices (index.py:934-957, validated since fix 231a672):
+   the labels are exactly 0..len-1; an integer outside that range, or a non-integer, is not a label *)
 Variable as_z : L -> option Z.            (* the integer a label / key element is, if it is one *)
 
+Definition auto_label (n : Z) (x : L) : option Z :=
+  match as_z x with Some z => if (0 <=? z) && (z <? n) then Some z else None | None => None end.
+
+Definition auto_end (n : Z) (o : option L) : res (option Z) :=
+  match o with
+  | None => Ok None
+  | Some x => match as_z x with
+              | None => Err "TypeError"             (* 0 <= attr < size on a non-number *)
+              | Some z => if (0 <=? z) && (z <? n) then Ok (Some z) else Err "KeyError"   (* LocInvalid *)
+              end
+  end.
+
 Definition M_loc_auto (labels : list L) (k : lkey) : res ckey :=
+  let n := Z.of_nat (length labels) in
   match unpack_key labels k with
   | LILoc k' => Ok k'
   | LSlice a b st =>
-      match (match a with None => Some None | Some x => option_map Some (as_z x) end),
-            (match b with None => Some None | Some x => option_map Some (as_z x) end) with
-      | Some za, Some zb =>
-          match za, zb, st with
-          | None, None, None => Ok CAll
-          | _, _, _ => Ok (CSlice (incl_typed (mk_slice za zb st) 0))
-          end
-      | _, _ => Err "TypeError"
+      za <- auto_end n a;; zb <- auto_end n b;;
+      match za, zb, st with
+      | None, None, None => Ok CAll
+      | _, _, _ => Ok (CSlice (incl_typed (mk_slice za zb st) 0))
       end
   | LMask m => Ok (CMask m)
-  | LList xs => match opt_all (map as_z xs) with
+  | LList xs => match opt_all (map (auto_label n) xs) with
                 | Some zs => Ok (CList zs)
-                | None => Err "IndexError"
+                | None => Err "KeyError"
                 end
-  | LLabel x => match as_z x with Some z => Ok (CInt z) | None => Err "IndexError" end
+  | LLabel x => match auto_label n x with Some z => Ok (CInt z) | None => Err "KeyError" end
   | LBoolSeries _ => Err "unreachable"
   end.
 
